@@ -950,14 +950,97 @@ func hasDivOrRem(v ssa.Value) bool {
 
 // binaryOrder returns the encoding/binary byte order type and accessor used in fn.
 func binaryOrder(fn *ssa.Function) (string, string) {
+	fns := []*ssa.Function{fn}
 	for _, call := range core.Calls(fn) {
-		f := core.CalleeFunc(call)
-		if f == nil || f.Pkg() == nil || f.Pkg().Path() != "encoding/binary" {
-			continue
+		if g := core.StaticFn(call); g != nil && g.Blocks != nil && pkgOf(g) != nil && pkgOf(g).Path() == core.PkgProto {
+			fns = append(fns, g)
 		}
-		if n := core.RecvNamed(f); n != nil {
-			w := strings.TrimPrefix(strings.TrimPrefix(f.Name(), "Put"), "Uint")
-			return n.Obj().Name(), w
+	}
+	for _, g := range fns {
+		for _, call := range core.Calls(g) {
+			f := core.CalleeFunc(call)
+			if f == nil || f.Pkg() == nil || f.Pkg().Path() != "encoding/binary" {
+				continue
+			}
+			if n := core.RecvNamed(f); n != nil {
+				w := strings.TrimPrefix(strings.TrimPrefix(f.Name(), "Put"), "Uint")
+				return n.Obj().Name(), w
+			}
+		}
+	}
+	// the same order written with shifts: [4]byte{byte(v >> 24), byte(v >> 16), byte(v >> 8), byte(v)} is
+	// big endian, v = uint32(b[0])<<24 | ... likewise; the map index -> shift is read off the stores / ors
+	for _, g := range fns {
+		shifts := map[int64]int64{}
+		for _, b := range g.Blocks {
+			for _, in := range b.Instrs {
+				switch x := in.(type) {
+				case *ssa.Store:
+					ia, ok := x.Addr.(*ssa.IndexAddr)
+					if !ok {
+						continue
+					}
+					idx, okI := core.ConstInt(ia.Index)
+					if !okI {
+						continue
+					}
+					v := stripConv(x.Val)
+					sh := int64(0)
+					if bo, ok := v.(*ssa.BinOp); ok && bo.Op == token.SHR {
+						if k, okK := core.ConstInt(bo.Y); okK {
+							sh = k
+						} else {
+							continue
+						}
+					} else if _, isParam := stripConv(v).(*ssa.Parameter); !isParam {
+						continue
+					}
+					shifts[idx] = sh
+				case *ssa.BinOp:
+					// uint32(b[i]) << s
+					if x.Op != token.SHL {
+						continue
+					}
+					k, okK := core.ConstInt(x.Y)
+					if !okK {
+						continue
+					}
+					if u, ok := stripConv(x.X).(*ssa.UnOp); ok {
+						if ia, ok := u.X.(*ssa.IndexAddr); ok {
+							if idx, okI := core.ConstInt(ia.Index); okI {
+								shifts[idx] = k
+							}
+						}
+					}
+					if ixv, ok := stripConv(x.X).(*ssa.Index); ok {
+						if idx, okI := core.ConstInt(ixv.Index); okI {
+							shifts[idx] = k
+						}
+					}
+				}
+			}
+		}
+		if len(shifts) >= 3 {
+			n := int64(len(shifts))
+			if _, has0 := shifts[n]; !has0 && len(shifts) == 3 {
+				n = 4 // the unshifted byte is not a shift instruction
+			}
+			big, little := true, true
+			for i, sh := range shifts {
+				if sh != 8*(n-1-i) {
+					big = false
+				}
+				if sh != 8*i {
+					little = false
+				}
+			}
+			w := sprintf("%d", 8*n)
+			switch {
+			case big:
+				return "bigEndian", w
+			case little:
+				return "littleEndian", w
+			}
 		}
 	}
 	return "", ""
@@ -987,6 +1070,25 @@ func ruleIPCalls(c *Ctx, p *core.Program, rule string, fn *ssa.Function, allowed
 			}
 			c.R.Unk(rule, key, cfg, p.Pos(call.Pos()), "dynamic call in an IP conversion helper")
 			return
+		}
+		// a helper of package proto that itself stays within the whitelist (v.octets())
+		if g := core.StaticFn(call); g != nil && g.Blocks != nil && pkgOf(g) != nil && pkgOf(g).Path() == core.PkgProto && !allowed[f.Name()] {
+			inner := true
+			for _, hc := range core.Calls(g) {
+				hf := core.CalleeFunc(hc)
+				if hf == nil {
+					if _, isBuiltin := hc.Common().Value.(*ssa.Builtin); !isBuiltin {
+						inner = false
+					}
+					continue
+				}
+				if !allowed[hf.Name()] {
+					inner = false
+				}
+			}
+			if inner {
+				continue
+			}
 		}
 		if !allowed[f.Name()] {
 			c.R.Bad(rule, key, cfg, p.Pos(call.Pos()), "calls "+f.FullName()+": not one of the bijective netip / binary accessors, so distinct addresses can map to the same result (e.g. Unmap turns ::ffff:a.b.c.d into the 4-byte a.b.c.d) and the To*/From* pair no longer round-trips")
